@@ -111,6 +111,7 @@ func shardBody(t *testing.T, sc scenario) func(tp *explore.Tape) explore.Outcome
 			if sc.extra == "none" {
 				threads = threads[:2]
 			}
+			synctest.Wait() // goroutines left over from the set-up (WAL sync, snapshot writers) finish or block first
 			res = vsync.Run(chooser(tp, sc.delay), vsync.Config{Focus: focus}, threads...)
 			if res.Deadlock || res.Livelock {
 				out.Violation = fmt.Sprintf("deadlock=%v livelock=%v: %s", res.Deadlock, res.Livelock, strings.Join(res.Stuck, "; "))
@@ -261,6 +262,7 @@ func tsiDeleteBody(t *testing.T, sc scenario) func(tp *explore.Tape) explore.Out
 				}
 			}
 			threads := []func(){func() { derr = env.DeleteWhere("", "host = 'b'") }}
+			synctest.Wait()
 			res = vsync.Run(chooser(tp, sc.delay), vsync.Config{Focus: []string{"github.com/influxdata/influxdb/tsdb"}, Horizon: time.Minute}, threads...)
 			if res.Deadlock || res.Livelock {
 				out.Violation = fmt.Sprintf("DROP SERIES over two measurements never returns (deadlock=%v): %s", res.Deadlock, strings.Join(res.Stuck, "; "))
